@@ -77,7 +77,10 @@ def chk_idcar(case, note):
     n = 0
     for head, tail, addr, hc, st, low in case["ctx"]:
         if car == "DF5":
-            msg = frames.tohex(frames.raw(5, (head << 13) | code, 56, addr), 56, hc)
+            v5 = frames.raw(5, (head << 13) | code, 56, addr)
+            if (head ^ code) & 6 == 0 and hc != "M":   # the address chosen so that the AP digits are the same as six digits of the data part
+                v5 = frames.raw_ap_repeats(5, (head << 13) | code, 56, head >> 3)
+            msg = frames.tohex(v5, 56, hc)
             fns = [("common.idcode", pms.common.idcode), ("surv.identity", pms.surv.identity)]
         elif car == "DF21":
             msg = frames.tohex(frames.raw(21, (((head << 13) | code) << 56) | tail, 112, addr), 112, hc)
@@ -144,6 +147,9 @@ def chk_surv(case, note):
 def enum_allcall(ctx):
     idx = 0
     overlays = list(range(80)) + [80, 81, 95, 96, 127, 128, 255, 256, 4095, 0x800000, 0xFFFFFF]
+    # corrupt overlays with a meaning of their own for a CRC: the remainder left by each single flipped bit of a short or long frame, the generator
+    from ref import crc24
+    overlays += sorted({crc24.remainder(1 << i, 56) for i in range(24, 56)} | {crc24.remainder(1 << i, 112) for i in range(24, 112)} | {0xFFF409, 0x7FFA04})
     for ca in range(8):
         for ov in overlays + ["r1", "r2", "r3"]:
             idx += 1
@@ -151,10 +157,23 @@ def enum_allcall(ctx):
                 rng = ctx.rng("ac", idx)
                 o = ov if isinstance(ov, int) else rng.randrange(80, 1 << 24)
                 yield {"ca": ca, "overlay": o, "ctx_aa": gen.addr24(rng), "hc": rng.choice("ULM")}
+        # replies whose PI digits are the same as digits of the data part (address chosen for the purpose), every interrogator code
+        for ov in list(range(80)) + [80, 200]:
+            for k in (0, 1, 2):
+                idx += 1
+                if ctx.mine(idx):
+                    yield {"ca": ca, "overlay": ov, "ctx_aa": 0, "pi_repeats": k, "hc": ctx.rng("acr", idx).choice("UL")}
 
 
 def chk_allcall(case, note):
     ca, ov, aa = case["ca"], case["overlay"], case["ctx_aa"]
+    if case.get("pi_repeats") is not None:
+        sol = frames.df11_pi_repeats(ca, ov, case["pi_repeats"])
+        if sol is None:
+            note.cls("no-such-reply")
+            return None
+        aa = sol[0]
+        note.cls("PI-digits-repeat-data-digits")
     msg = frames.tohex(frames.df11(aa, ca, ov), 56, case["hc"])
     exp_ic = "II%d" % ov if ov < 16 else ("SI%d" % (ov - 16) if ov <= 79 else "corrupt IC")
     r = call(pms.allcall.interrogator, msg)
